@@ -23,6 +23,7 @@ type BCase struct {
 	Tpl     string `json:"tpl"`
 	Facts   []any  `json:"facts"`
 	DstFact []any  `json:"dstfact"`
+	Unit    []any  `json:"unit"` // constant of the unit clause in the recursive templates (%UNIT%)
 }
 
 type BFact struct {
@@ -38,6 +39,7 @@ type BResult struct {
 	T2      any     `json:"t2"`
 	T1b     []any   `json:"t1b"`
 	T2b     []any   `json:"t2b"`
+	Unit    []any   `json:"unit,omitempty"`
 	Tpl     string  `json:"tpl"`
 	Facts   []any   `json:"facts"`
 	Text    string  `json:"text"`
@@ -96,7 +98,15 @@ var boundsTemplates = map[string]string{
 	"src_then_any":     "dst(X) :- src(X), wide(X).",
 	"src_then_name":    "dst(X) :- src(X), names(X).",
 	"two_srcs":         "dst(X) :- wide(X), src(X), src(X).",
-	"none":             "",
+	// undeclared predicates in a recursion cycle, the first with a unit clause; both lexical name orders, consumer
+	// named before (dst) and after (zdst is a second declared consumer) the cycle's predicates
+	"mutual_ab":      "origin(%UNIT%).\norigin(X) :- reflect(X).\norigin(Y) :- src(Y).\nreflect(X) :- origin(X).\ndst(X) :- origin(X), reflect(X).",
+	"mutual_ba":      "reflect(%UNIT%).\nreflect(X) :- origin(X).\nreflect(Y) :- src(Y).\norigin(X) :- reflect(X).\ndst(X) :- reflect(X), origin(X).",
+	"mutual_ab_zdst": "origin(%UNIT%).\norigin(X) :- reflect(X).\norigin(Y) :- src(Y).\nreflect(X) :- origin(X).\ndst(X) :- reflect(X), origin(X).",
+	"mutual_ba_zdst": "reflect(%UNIT%).\nreflect(X) :- origin(X).\nreflect(Y) :- src(Y).\norigin(X) :- reflect(X).\ndst(X) :- origin(X), reflect(X).",
+	"selfrec":        "origin(%UNIT%).\norigin(X) :- origin(X), src(X).\norigin(Y) :- src(Y).\ndst(X) :- origin(X).",
+	"chain3":         "aa(%UNIT%).\naa(X) :- cc(X).\nbb(X) :- aa(X).\ncc(X) :- bb(X).\ncc(Y) :- src(Y).\ndst(X) :- aa(X), bb(X), cc(X).",
+	"none":           "",
 }
 
 func boundsText(c BCase) string {
@@ -125,6 +135,9 @@ func boundsText(c BCase) string {
 		fmt.Fprintf(&sb, "dst(%s).\n", constText(c.DstFact))
 	}
 	if t := boundsTemplates[c.Tpl]; t != "" {
+		if len(c.Unit) > 0 {
+			t = strings.ReplaceAll(t, "%UNIT%", constText(any(c.Unit)))
+		}
 		sb.WriteString(t + "\n")
 	}
 	return sb.String()
@@ -165,7 +178,7 @@ func toCN(c ast.Constant) any {
 }
 
 func runBounds(c BCase) (res BResult) {
-	res = BResult{ID: c.ID, T1: c.T1, T2: c.T2, T1b: c.T1b, T2b: c.T2b, Tpl: c.Tpl, Facts: c.Facts, Stored: []BFact{}}
+	res = BResult{ID: c.ID, T1: c.T1, T2: c.T2, T1b: c.T1b, T2b: c.T2b, Unit: c.Unit, Tpl: c.Tpl, Facts: c.Facts, Stored: []BFact{}}
 	if res.T1b == nil {
 		res.T1b = []any{}
 	}
